@@ -115,8 +115,11 @@ func (hw *histWrite) arg(p *an.Program, saver *ssa.Function, k int) *an.Term {
 
 // succeededAt: the facts at instruction `at` of the saver say that the write succeeded.
 func (hw *histWrite) succeededAt(p *an.Program, saver *ssa.Function, at ssa.Instruction) bool {
-	sfi := p.Info(saver)
-	for _, f := range sfi.FactsAt(at) {
+	return hw.succeededIn(p, saver, p.Info(saver).FactsAt(at))
+}
+
+func (hw *histWrite) succeededIn(p *an.Program, saver *ssa.Function, facts an.FactSet) bool {
+	for _, f := range facts {
 		if f.Neg || f.T.K != an.KBin || f.T.S != "==" {
 			continue
 		}
@@ -331,20 +334,20 @@ func writeOnce(c *an.Ctx, saver, loader *ssa.Function) (*ssa.Call, an.FactSet, *
 	if write != nil {
 		okW := true
 		where := ""
-		for _, b := range saver.Blocks {
-			if len(b.Instrs) == 0 || b == saver.Recover {
+		for _, o := range sfi.OutcomesByEdge() {
+			if len(o.Results) == 0 || !isConstTerm(o.Results[len(o.Results)-1], "nil") {
 				continue
 			}
-			ret, ok := b.Instrs[len(b.Instrs)-1].(*ssa.Return)
-			if !ok || len(ret.Results) == 0 || !isConstTerm(sfi.Term(ret.Results[len(ret.Results)-1]), "nil") {
-				continue
+			from := o.Ret.Block()
+			if o.From != nil {
+				from = o.From
 			}
-			if !(write.Block() == b || reachable(write.Block(), b)) {
-				continue
+			if !(write.Block() == from || reachable(write.Block(), from)) {
+				continue // a way on which nothing was written (the reading is on disk already)
 			}
-			if !hw.succeededAt(c.P, saver, ret) {
+			if !hw.succeededIn(c.P, saver, o.Facts) {
 				okW = false
-				where = c.P.Pos(ret.Pos())
+				where = c.P.Pos(o.Ret.Pos())
 			}
 		}
 		c.Check(okW, "WRITE-ONCE", saver, write.Pos(), an.KeyOf(saver, "success-means-written"), "the saver returns nil after the write only if WriteAt returned a nil error (the caller sends only what is on disk)", "nil return at "+where+" is not dominated by the write's success")
@@ -363,42 +366,42 @@ func writeOnce(c *an.Ctx, saver, loader *ssa.Function) (*ssa.Call, an.FactSet, *
 	if readAt != nil {
 		okL := true
 		why := ""
-		for _, b := range loader.Blocks {
-			if len(b.Instrs) == 0 || b == loader.Recover {
+		for _, o := range lfi.OutcomesByEdge() {
+			if len(o.Results) != 2 || !isConstTerm(o.Results[1], "nil") {
 				continue
 			}
-			ret, ok := b.Instrs[len(b.Instrs)-1].(*ssa.Return)
-			if !ok || len(ret.Results) != 2 || !isConstTerm(lfi.Term(ret.Results[1]), "nil") {
-				continue
+			from := o.Ret.Block()
+			if o.From != nil {
+				from = o.From
 			}
-			if !(readAt.Block() == b || reachable(readAt.Block(), b)) {
+			if !(readAt.Block() == from || reachable(readAt.Block(), from)) {
 				continue // before the read: the before-origin answer
 			}
 			eof, good := false, false
-			for _, f := range lfi.FactsAt(ret) {
+			for _, f := range o.Facts {
 				if f.Neg || f.T.K != an.KBin || f.T.S != "==" {
 					continue
 				}
 				for k := 0; k < 2; k++ {
-					a, o := f.T.A[k], f.T.A[1-k]
+					a, ot := f.T.A[k], f.T.A[1-k]
 					if a.K == an.KExt && a.S == "1" && a.A[0].Val == ssa.Value(readAt) {
-						if isConstTerm(o, "nil") {
+						if isConstTerm(ot, "nil") {
 							good = true
 						}
-						if strings.Contains(o.Key(), "io.EOF") {
+						if strings.Contains(ot.Key(), "io.EOF") {
 							eof = true
 						}
 					}
 				}
 			}
-			vz := isConstTerm(lfi.Term(ret.Results[0]), "0")
+			vz := isConstTerm(o.Results[0], "0")
 			switch {
 			case vz && !eof && !good:
 				okL = false
-				why = "return 0, nil at " + c.P.Pos(ret.Pos()) + " without err == io.EOF"
+				why = "return 0, nil at " + c.P.Pos(o.Ret.Pos()) + " without err == io.EOF"
 			case !vz && !good:
 				okL = false
-				why = "a value is returned at " + c.P.Pos(ret.Pos()) + " although the read may have failed"
+				why = "a value is returned at " + c.P.Pos(o.Ret.Pos()) + " although the read may have failed"
 			}
 		}
 		c.Check(okL, "WRITE-ONCE", loader, readAt.Pos(), an.KeyOf(loader, "empty-only-eof"), "the history loader answers 'empty' only when the slot lies beyond the end of the file (err == io.EOF) and a value only when the read succeeded; every other read failure is returned as an error", why)
